@@ -291,6 +291,8 @@ var otherSide = map[string]string{"C": "S", "S": "C"}
 // NewSession builds a fresh rig.
 func NewSession() *Session {
 	s := &Session{rig: hook.New(), c: &Case{MC: newMirror(), MS: newMirror()}}
+	// the slowest legal writer schedule: released frames stay in the output channel while processFrame goes on
+	s.rig.LagWriters = true
 	s.ep = map[string]*endpoint{"C": newEndpoint(), "S": newEndpoint()}
 	s.mir = map[string]*mirror{"C": s.c.MC, "S": s.c.MS}
 	s.encSeq = map[string]int{}
